@@ -209,6 +209,43 @@ fn dealing(rec: &mut Rec, ctx: &Ctx, idx: u64, rng: &mut ChaCha20Rng) {
   for _ in 0..n_iter {
     shares.push(evaluator.next().unwrap());
   }
+  // the dealer is an Iterator: shares obtained through nth / skip / step_by are
+  // shares like any other (x != 0, on the polynomials, distinct from those dealt so far)
+  if idx % 3 == 1 {
+    let n0 = shares.len();
+    match idx % 9 {
+      1 => {
+        if let Some(s) = evaluator.nth(rng.gen_range(0..3)) {
+          shares.push(s);
+        }
+      }
+      4 => {
+        let k = rng.gen_range(1..4);
+        let mut it = evaluator.by_ref().skip(k);
+        if let Some(s) = it.next() {
+          shares.push(s);
+        }
+      }
+      _ => {
+        let st = rng.gen_range(1..4);
+        let v: Vec<Share> = evaluator.by_ref().step_by(st).take(2).collect();
+        shares.extend(v);
+      }
+    }
+    rec.evn("share_via_iterator_adaptor", (shares.len() - n0) as u64);
+  }
+  // a fresh dealer's very first share through nth(0)
+  if idx % 11 == 2 {
+    let mut r2 = RecRng::new(case_rng(ctx, "dealer-stream", idx));
+    if let Ok(mut ev2) = sharks.dealer_rng(&secret, &mut r2) {
+      if let Some(s) = ev2.nth(0) {
+        rec.ev("share_via_iterator_adaptor");
+        if bool::from(s.x.is_zero()) {
+          rec.violation("x-zero:iter", "dealer.nth(0) on a fresh dealer dealt the share at x = 0 (the secret itself)".into(), json!({"t": t, "share": share_json(&s)}));
+        }
+      }
+    }
+  }
   let mut point_rng = RecRng::new(case_rng(ctx, "point-stream", idx));
   let zero_point = idx % 7 == 3;
   if zero_point {
